@@ -66,7 +66,8 @@ CHECKS = {
              "aggregator_parser_with_base_partial the same with a base (C04.parse_agrees_with_base); parser_chain_partial - parse a base, "
              "then parse against it, on both types, with no assumption about the base beyond the side condition; "
              "aggregator_href_is_standard_partial / url_href_is_standard_partial - get_href() of the parsed object is the "
-             "Standard's serialisation of the Standard's record, byte for byte. Spec.parse is a hand transcription of the Standard (trusted, validated by WPT). "
+             "Standard's serialisation of the Standard's record, byte for byte; url_origin_is_standard_partial - get_origin() "
+             "(for blob: the inner parse) is the Standard's origin serialisation. Spec.parse is a hand transcription of the Standard (trusted, validated by WPT). "
              "IDNA answers inside the Spec come from ada::idna (C06)."),
 
     "C03": dict(
@@ -108,7 +109,7 @@ CHECKS = {
              "aggregator's eight offsets (false on the pinned tree, provable after fixes 32af07f/b6b9d92). The model is "
              "evaluated by the Lean driver on the field values of every real ada::url state and must give the real href, "
              "size and components. Setters: username_agrees / password_agrees / port_agrees / search_agrees / "
-             "hash_agrees / pathname_agrees / protocol_agrees / host_agrees_partial / href_agrees - for every record satisfying the invariants of C19, every value and every limit, the model of "
+             "hash_agrees / pathname_agrees / protocol_agrees / host_agrees_partial / href_agrees / origin_agrees (the getter) - for every record satisfying the invariants of C19, every value and every limit, the model of "
              "ada::url's setter viewed through the layout equals the model of url_aggregator's setter (same buffer, same "
              "offsets, same return value); both setter models are replayed against the real calls. Parser: parse_agrees - "
              "Model/ParseAgg.lean transcribes the url_aggregator branches of parse_url_impl (parse_scheme_with_colon<false>, "
